@@ -44,7 +44,7 @@ SCENARIOS = {
         'packets': {'dB': {'data': '/a/b'}, 'dC': {'data': '/a/b/c'}, 'nB': {'nack': '/a/b', 'reason': 100},
                     'nD': {'nack': '/a/b', 'reason': 50, 'digest_of': 'dB'}},
         'prefix': ['x0', 'x1', 'x2', 'x3'],
-        'alphabet': ['dB', 'dC', 'nB', 'nD', 't', 't'],
+        'alphabet': ['dB', 'dC', 'nB', 'nD', 't', 't', 's'],
     },
     'S3': {  # validator latency versus lifetime, two Interests sharing a node
         'interests': [{'name': '/a', 'cbp': False, 'lifetime': 10, 'vlat': 5},
@@ -72,7 +72,7 @@ SCENARIOS = {
                       {'name': '/a/b/c', 'cbp': False, 'lifetime': 20}],
         'packets': {'dC': {'data': '/a/b/c'}, 'dB': {'data': '/a/b'}, 'nB': {'nack': '/a/b', 'reason': 150}},
         'prefix': ['x0', 'x1', 'x2'],
-        'alphabet': ['dC', 'dB', 'nB', 't', 't', 'c1'],
+        'alphabet': ['dC', 'dB', 'nB', 't', 't', 'c1', 's'],
         'phase2': True,
     },
     'S5': {  # duplicates and late packets after completion / after cancel
@@ -86,9 +86,11 @@ SCENARIOS = {
 
 for _k in ('S1', 'S4', 'S7'):
     SCENARIOS[_k + 'p'] = dict(SCENARIOS[_k], shared_param=True)
+# S2 with the Data packets arriving inside link-layer envelopes
+SCENARIOS['S2w'] = dict(SCENARIOS['S2'], packets={k: (dict(v, lp=True) if 'data' in v else v) for k, v in SCENARIOS['S2']['packets'].items()})
 
-LEN = {'quick': {'S1': 5, 'S2': 5, 'S3': 5, 'S3b': 5, 'S4': 5, 'S5': 5, 'S7': 5, 'S1p': 4, 'S4p': 4, 'S7p': 4},
-       'thorough': {'S1': 6, 'S2': 6, 'S3': 6, 'S3b': 6, 'S4': 6, 'S5': 6, 'S7': 6, 'S1p': 5, 'S4p': 5, 'S7p': 5}}
+LEN = {'quick': {'S1': 5, 'S2': 5, 'S3': 5, 'S3b': 5, 'S4': 5, 'S5': 5, 'S7': 5, 'S1p': 4, 'S4p': 4, 'S7p': 4, 'S2w': 4},
+       'thorough': {'S1': 6, 'S2': 6, 'S3': 6, 'S3b': 6, 'S4': 6, 'S5': 6, 'S7': 6, 'S1p': 5, 'S4p': 5, 'S7p': 5, 'S2w': 5}}
 DEV = {'quick': 1, 'thorough': 2}
 
 
@@ -153,7 +155,9 @@ class Built:
             if 'data' in p:
                 content = ('content-of-' + label).encode()
                 wire = bytes(enc.make_data(p['data'], enc.MetaInfo(), content, DigestSha256Signer()))
-                self.packets[label] = wire
+                # 'lp': the same Data inside a link-layer envelope (CongestionMark header); the packet hash is that of the Data
+                self.packets[label] = (b'\x64' + bytes([len(wire) + 7]) + b'\xfd\x03\x40\x01\x01' + b'\x50' + bytes([len(wire)]) + wire
+                                       if p.get('lp') else wire)
                 self.ref_packets[label] = {'kind': 'data', 'comps': comps_of(p['data']),
                                            'sha256': hashlib.sha256(wire).hexdigest(), 'content': content}
         for label, p in sp['packets'].items():
